@@ -69,7 +69,12 @@ pub fn gen_number(src: &mut Src) -> NumLit {
     let exp = if src.chance(1, 3) {
         let e = if src.bool() { "e" } else { "E" };
         let sign = *src.pick(&["", "+", "-"]);
-        let digits = match src.below(4) {
+        let digits = match src.below(16) {
+            // beyond the range of f64: still a number of the grammar (it has no integer-range rule)
+            15 => src.pick(&["400", "999", "308", "0400"]).to_string(),
+            4..=7 => "00".to_string(),
+            8..=11 => src.range(1, 20).to_string(),
+            12..=14 => format!("0{}", src.range(1, 9)),
             0 => "0".to_string(),
             1 => "00".to_string(),
             2 => src.range(1, 20).to_string(),
